@@ -24,6 +24,7 @@ type c14cfg struct {
 	Memo  *c14db   `dials:"memo" dialsalias:"cache"`
 	Level int8     `dials:"level" dialsenv:"LVL" dialsenvalias:"OLD_LVL"`
 	Plain int8     `dials:"plain"`
+	Ports []int16  `dials:"ports" dialsalias:"listen_ports"`
 }
 
 // one aliased leaf: its two variable names and where to find it
@@ -32,7 +33,7 @@ type c14leaf struct {
 	field          string // error text must mention this
 }
 
-var c14vars = []string{"NAME", "OLDNAME", "DB_HOST", "DB_HOSTNAME", "DB_PORT", "TAGS", "LABELS", "MEMO_HOST", "CACHE_HOST", "MEMO_HOSTNAME", "CACHE_HOSTNAME", "MEMO_PORT", "CACHE_PORT", "LVL", "OLD_LVL", "LEVEL", "PLAIN", "HOSTNAME", "HOST"}
+var c14vars = []string{"NAME", "OLDNAME", "DB_HOST", "DB_HOSTNAME", "DB_PORT", "TAGS", "LABELS", "MEMO_HOST", "CACHE_HOST", "MEMO_HOSTNAME", "CACHE_HOSTNAME", "MEMO_PORT", "CACHE_PORT", "LVL", "OLD_LVL", "LEVEL", "PLAIN", "HOSTNAME", "HOST", "PORTS", "LISTEN_PORTS"}
 
 func c14clear() {
 	for _, v := range c14vars {
@@ -41,7 +42,12 @@ func c14clear() {
 }
 
 // pattern: 0 neither, 1 primary, 2 alias, 3 both
+var c14fixed bool // the leaf patterns of the basic harness are pinned to "neither" in the nested one
+
 func c14set(name string, l c14leaf, val string) int {
+	if c14fixed && name != "memo" {
+		return 0
+	}
 	p := zzverif.Choose("pat_"+name, 4)
 	if p&1 != 0 {
 		zzverif.Setenv(l.primary, val)
@@ -52,9 +58,10 @@ func c14set(name string, l c14leaf, val string) int {
 	return p
 }
 
-func c14run() {
+func c14run(nested bool) {
 	c14clear()
 	defer c14clear()
+	c14fixed = nested
 	// a bare HOSTNAME / HOST must never set the nested field
 	zzverif.Setenv("HOSTNAME", "decoy")
 	zzverif.Setenv("HOST", "decoy")
@@ -63,19 +70,60 @@ func c14run() {
 	pTags := c14set("tags", c14leaf{"TAGS", "LABELS", "Tags"}, "a,b")
 	pMemo := c14set("memo", c14leaf{"MEMO_PORT", "CACHE_PORT", "Memo"}, "7")
 	pLvl := c14set("lvl", c14leaf{"LVL", "OLD_LVL", "Level"}, "3")
-	plain := zzverif.Choose("plain", 2) == 1
+	plain := !nested && zzverif.Choose("plain", 2) == 1
 	if plain {
 		zzverif.Setenv("PLAIN", "5")
 	}
+	// the aliased leaf inside the aliased struct: none, or one of its four names, or two of them
+	mh := 0
+	if nested {
+		mh = zzverif.Choose("memohost", 7)
+	}
+	switch mh {
+	case 1:
+		zzverif.Setenv("MEMO_HOST", "mh")
+	case 2:
+		zzverif.Setenv("MEMO_HOSTNAME", "mh")
+	case 3:
+		zzverif.Setenv("CACHE_HOST", "mh")
+	case 4:
+		zzverif.Setenv("CACHE_HOSTNAME", "mh")
+	case 5:
+		zzverif.Setenv("MEMO_HOST", "mh")
+		zzverif.Setenv("MEMO_HOSTNAME", "mh")
+	case 6:
+		zzverif.Setenv("MEMO_HOST", "mh")
+		zzverif.Setenv("CACHE_HOSTNAME", "mh")
+	}
+	memoPrimary := pMemo&1 != 0 || mh == 1 || mh == 2 || mh == 5 || mh == 6
+	memoAlias := pMemo&2 != 0 || mh == 3 || mh == 4 || mh == 6
+	memoBoth := (memoPrimary && memoAlias) || mh == 5
+	// an aliased slice of integers, possibly given as the empty string (which is a value)
+	pPorts := 0
+	if nested {
+		pPorts = zzverif.Choose("ports", 5)
+	}
+	switch pPorts {
+	case 1:
+		zzverif.Setenv("PORTS", "1,2")
+	case 2:
+		zzverif.Setenv("LISTEN_PORTS", "3")
+	case 3:
+		zzverif.Setenv("PORTS", "")
+		zzverif.Setenv("LISTEN_PORTS", "3")
+	case 4:
+		zzverif.Setenv("PORTS", "")
+	}
 	t := dials.NewType(ptrify.Pointerify(reflect.TypeOf(c14cfg{}), reflect.Value{}))
 	val, err := (&Source{}).Value(context.Background(), t)
-	anyBoth := pName == 3 || pHost == 3 || pTags == 3 || pMemo == 3 || pLvl == 3
+	anyBoth := pName == 3 || pHost == 3 || pTags == 3 || memoBoth || pLvl == 3 || pPorts == 3
 	if err != nil {
 		zzverif.Assert(anyBoth, "C14 the environment source failed although no field was given under both its names")
 		// the error names a field that was supplied twice
 		msg := err.Error()
 		named := (pName == 3 && strings.Contains(msg, "Name")) || (pHost == 3 && strings.Contains(msg, "Host")) || (pTags == 3 && strings.Contains(msg, "Tags")) ||
-			(pMemo == 3 && (strings.Contains(msg, "Memo") || strings.Contains(msg, "Port"))) || (pLvl == 3 && strings.Contains(msg, "Level"))
+			(memoBoth && (strings.Contains(msg, "Memo") || strings.Contains(msg, "Port") || strings.Contains(msg, "Host"))) || (pLvl == 3 && strings.Contains(msg, "Level")) ||
+			(pPorts == 3 && strings.Contains(msg, "Ports"))
 		if !zzverif.Symbolic() {
 			zzverif.Assert(named, "C14 the both-names error does not name the field: "+msg)
 		}
@@ -103,10 +151,22 @@ func c14run() {
 	if pTags != 0 && !f("Tags").IsNil() {
 		zzverif.Assert(f("Tags").Len() == 2 && f("Tags").Index(1).String() == "b", "C14 TAGS/LABELS: wrong value")
 	}
-	zzverif.Assert(f("Memo").IsNil() == (pMemo == 0), "C14 MEMO_PORT/CACHE_PORT: aliased struct field set/unset wrongly")
+	zzverif.Assert(f("Memo").IsNil() == (pMemo == 0 && mh == 0), "C14 MEMO_*/CACHE_*: aliased struct field set although none of its variables was supplied, or unset although one was")
 	if pMemo != 0 && !f("Memo").IsNil() {
 		pv := f("Memo").Elem().FieldByName("Port")
 		zzverif.Assert(!pv.IsNil() && pv.Elem().Int() == 7, "C14 MEMO_PORT/CACHE_PORT: wrong value")
+	}
+	if !f("Memo").IsNil() {
+		hv := f("Memo").Elem().FieldByName("Host")
+		zzverif.Assert(hv.IsNil() == (mh == 0), "C14 an aliased leaf inside an aliased struct (MEMO_HOST / MEMO_HOSTNAME / CACHE_HOST / CACHE_HOSTNAME) is set although none of its names was supplied, or unset although one was")
+		if mh != 0 && !hv.IsNil() {
+			zzverif.Assert(hv.Elem().String() == "mh", "C14 aliased leaf inside an aliased struct: wrong value")
+		}
+	}
+	zzverif.Assert(f("Ports").IsNil() == (pPorts == 0), "C14 PORTS/LISTEN_PORTS: aliased integer slice set/unset wrongly (the empty string is a value)")
+	if !f("Ports").IsNil() {
+		want := map[int]int{1: 2, 2: 1, 4: 0}[pPorts]
+		zzverif.Assert(f("Ports").Len() == want, "C14 PORTS/LISTEN_PORTS: wrong value")
 	}
 	if chk(pLvl, f("Level"), "LVL/OLD_LVL") {
 		zzverif.Assert(f("Level").Elem().Int() == 3, "C14 LVL/OLD_LVL: wrong value")
@@ -115,7 +175,11 @@ func c14run() {
 	zzverif.Reached("c14-end")
 }
 
-func HarnessC14Env() { c14run() }
+func HarnessC14Env() { c14run(false) }
+
+// HarnessC14EnvNested: an aliased leaf inside an aliased struct under each of its four names, and
+// an aliased integer slice given as the empty string.
+func HarnessC14EnvNested() { c14run(true) }
 
 // ---- aliases on fields whose primary name is implicit (from the Go field name, or from the
 // `dials` tag for a source-specific alias)
